@@ -68,6 +68,14 @@ AllDone == \A w \in Workers : done[w] = MaxOps /\ thr[w].pc = "idle"
 (* Message lifecycle (sequential): mutable during construction, frozen     *)
 (* afterwards.                                                             *)
 (***************************************************************************)
+\* A message object comes about in several ways.  Whatever the way, the object is frozen and stands for the same frame as its
+\* source: a copy, a deep copy and an unpickled message (what multiprocessing hands to another process) are UBXMessages "after
+\* construction" like any other.
+Origins == {"constructor", "parse", "reader", "config-helper", "copy", "deepcopy", "pickle"}
+StateOf(origin) == IF origin \in Origins THEN "frozen" ELSE "unknown"
+\* a twin (copy / deepcopy / pickle round trip) of a message with frame f and public attributes a: the same frame, the same attributes
+Twin(m) == [frame |-> m.frame, attrs |-> m.attrs, state |-> "frozen"]
+
 FrozenStep(state, op) ==   \* op in {"set", "del"} on any attribute name
     IF state = "frozen" THEN [state |-> "frozen", outcome |-> "UBXMessageError", serChanged |-> FALSE]
     ELSE [state |-> state, outcome |-> "ok", serChanged |-> TRUE]
